@@ -165,6 +165,8 @@ def run_impl(case):
         return run_history(case)
     if kind == "sweep":
         return run_sweep(case)
+    if kind == "exposure":
+        return run_exposure(case)
     vmin, vmax = bits_float(case["vmin"]), bits_float(case["vmax"])
     rows, cols = case["shape"]
     try:
@@ -483,6 +485,73 @@ def history_findings(case, impl):
     return out
 
 
+def run_exposure(case):
+    """the converter run through `pyxel.run_mode` by an Exposure with several readout times;
+    → {"runs": [impl of the image RETURNED for every readout time]}"""
+    import numpy as np
+    import pyx
+    import pyxel
+
+    rows, cols = case["shape"]
+    try:
+        det = pyx.make_detector(case.get("detector", "CCD"), rows, cols, characteristics={
+            "adc_bit_resolution": case["bits"], "adc_voltage_range": (bits_float(case["vmin"]), bits_float(case["vmax"]))})
+        mode = pyx.make_exposure(times=[float(t) for t in case["times"]], non_destructive=bool(case.get("non_destructive")))
+        with warnings.catch_warnings(), np.errstate(all="ignore"):
+            warnings.simplefilter("ignore")
+            dt = pyxel.run_mode(mode=mode, detector=det, pipeline=sweep_pipeline(case))
+            image = None
+            for node in dt.subtree:
+                if "image" in node.data_vars:
+                    image = node.to_dataset()["image"].compute()
+                    break
+        if image is None:
+            return {"error": "Other:no-image", "msg": "the result holds no image bucket"}
+        if "time" not in image.dims or image.sizes["time"] != len(case["times"]):
+            return {"error": "Other:dims", "msg": f"unexpected dimensions {dict(image.sizes)}"}
+        runs = []
+        for k in range(len(case["times"])):
+            arr = np.asarray(image.isel(time=k).values)
+            runs.append({"codes": [int(x) for x in arr.reshape(-1)], "dtype": str(image.dtype), "shape": list(arr.shape)})
+        last = det.image.array
+        return {"runs": runs, "detector_image": [int(x) for x in last.reshape(-1)], "detector_dtype": str(last.dtype)}
+    except common.InfraError:
+        raise
+    except Exception as e:  # noqa: BLE001
+        return {"error": common.err_kind(e), "msg": f"{type(e).__name__}: {e}"[:300]}
+
+
+def exposure_runs(case):
+    sub = {"kind": case["conv"], "bits": case["bits"], "vmin": case["vmin"], "vmax": case["vmax"], "vs": case["vs"],
+           "shape": case["shape"], "w": None}
+    if case["conv"] == "simple":
+        sub["data_type"] = None
+    return [dict(sub) for _ in case["times"]]
+
+
+def exposure_findings(case, impl):
+    if "error" in impl:
+        return [(0, "error", f"exposure with readout times {case['times']} at {case['bits']} bit failed: {impl.get('msg', impl['error'])}")]
+    out = []
+    for k, (sub, st) in enumerate(zip(case["_runs"], impl["runs"])):
+        for clause, why, _ in property_predicate(sub, st):
+            out.append((k, clause, f"exposure with readout times {case['times']} ({op_name(sub)}, {case['bits']} bit, {case.get('detector', 'CCD')}), "
+                                   f"image returned for readout {k}: {why}"))
+    return out
+
+
+def gen_exposure(rng, bits):
+    conv = rng.choice(["simple", "simple", "sar"])
+    vmin, vmax = rng.choice(HARVESTED)
+    if conv == "sar":
+        vmin, vmax = 0.0, abs(vmax)
+    vs = [vmax, ulps(vmax, 1), vmax * 2 + 1, vmin, vmin - 1.0, ulps(vmax, -1)] + [rng.uniform(vmin, vmax) for _ in range(6)]
+    rng.shuffle(vs)
+    return {"kind": "exposure", "conv": conv, "bits": bits, "times": list(range(1, rng.choice([2, 3, 4]) + 1)),
+            "non_destructive": rng.random() < 0.3, "vmin": float_bits(vmin), "vmax": float_bits(vmax),
+            "vs": [float_bits(v) for v in vs], "shape": [3, 4], "detector": rng.choice(["CCD", "CCD", "CMOS", "MKID", "APD"])}
+
+
 def sweep_runs(case):
     """the single conversions a resolution sweep consists of (one per swept value, same frame and range)"""
     runs = []
@@ -700,10 +769,15 @@ def body(ck: common.Check):
                 sw = gen_sweep(rng, with_dask, order)
                 sw["_runs"] = sweep_runs(sw)
                 cases.append(sw)
+    # … and multi-readout EXPOSURES, wide converters included: the image returned for every readout time is judged
+    for bits in ([54, 60, 63, 64, 8, 33] if quick else [54, 55, 57, 60, 62, 63, 64, 53, 8, 12, 16, 24, 32, 33, 48] * 2):
+        ex = gen_exposure(rng, bits)
+        ex["_runs"] = exposure_runs(ex)
+        cases.append(ex)
     # default widths come from the implementation's own get_dtype (the table theorem ties it to the model)
     singles = []
     for c in cases:
-        singles += c["ops"] if c["kind"] == "history" else c["_runs"] if c["kind"] == "sweep" else [c]
+        singles += c["ops"] if c["kind"] == "history" else c["_runs"] if c["kind"] in ("sweep", "exposure") else [c]
     for c in singles:
         if c["kind"] in ("simple", "sar", "sar_noise"):
             if c.get("w") is None:
@@ -722,6 +796,23 @@ def body(ck: common.Check):
                 ck.disagreement("rn53", case, case["expect"], ans["rn"])
             continue
         impl = run_impl(case)
+        if kind == "exposure":
+            pub = {k: v for k, v in case.items() if k != "_runs"}
+            ck.case(pub, nontrivial=True, stream="exposure")
+            ck.count(f"exposure-readouts={len(case['times'])}")
+            ck.count(f"exposure-bits={case['bits']}")
+            for k, clause, why in exposure_findings(case, impl):
+                ck.violation(f"C16:exposure:{op_name(case['_runs'][k])}:{clause}", why, {"case": pub, "impl": impl})
+            for k, (sub, st) in enumerate(zip(case["_runs"], impl.get("runs", []))):
+                a = answers[id(sub)]
+                if "bad" in a:
+                    raise common.InfraError(f"driver rejected request: {a}")
+                if st.get("codes") != a["f"]:
+                    ck.disagreement("exposure", {"exposure": pub, "readout": k}, st, {"codes": a["f"]})
+                    ck.count("disagree")
+            if "error" in impl:
+                ck.disagreement("exposure", pub, impl, None)
+            continue
         if kind == "sweep":
             pub = {k: v for k, v in case.items() if k != "_runs"}
             ck.case(pub, nontrivial=True, stream="sweep")
@@ -828,7 +919,8 @@ def body(ck: common.Check):
                "MKID / APD detectors and contain REFUSED changes of a converter setting (adc_bit_resolution 3, 2, 0, -1, 65, 100; "
                "malformed adc_voltage_range; through the setter or Processor.set) followed by a conversion with the settings left as they "
                "were: the setting in force is the last accepted one; OBSERVATIONS through pyxel.run_mode sweeping adc_bit_resolution "
-               "(increasing / decreasing / mixed order, sequential and dask), the image returned for every swept value judged. "
+               "(increasing / decreasing / mixed order, sequential and dask), the image returned for every swept value judged; EXPOSURES with 2–4 "
+               "readout times (destructive and not) at 8…64 bit, wide converters (54–64 bit) included, the image returned for every readout judged. "
                "non-trivial = every converter case; distinct by canonical JSON") % (rounds, 7 if quick else 12)
     ck.assumptions = [
         "allowed converter setting = 4 ≤ bits ≤ 64, finite doubles vmin < vmax whose difference does not overflow; NaN voltages are outside the statement",
@@ -856,6 +948,11 @@ def replay_main(path):
         for op in case["ops"]:
             op.setdefault("w", default_width(op["bits"]))
         findings = [(clause, why, None) for _, clause, why in history_findings(case, impl)]
+    elif case.get("kind") == "exposure":
+        case["_runs"] = exposure_runs(case)
+        for sub in case["_runs"]:
+            sub["w"] = default_width(sub["bits"])
+        findings = [(clause, why, None) for _, clause, why in exposure_findings(case, impl)]
     elif case.get("kind") == "sweep":
         case["_runs"] = sweep_runs(case)
         for sub in case["_runs"]:
